@@ -40,9 +40,6 @@ impl Case<'_> {
                "scripts":[script_json(self.scripts[0]), script_json(self.scripts[1])],
                "kinds":self.kinds,"p1":self.p1,"p2":self.p2,"inner":self.inner,"mode":self.mode})
     }
-    pub fn total_events(&self) -> usize {
-        self.scripts[0].len() + self.scripts[1].len() + self.inner.len()
-    }
     pub fn total_pends(&self) -> usize {
         pends_of(self.scripts[0]) + pends_of(self.scripts[1]) + self.inner.len()
     }
